@@ -233,6 +233,25 @@ def install_hooks():
 
     sa_api.update_on_match = update_on_match
 
+    # exceptions swallowed by LOG.exception / LOG.error(exc_info)
+    import logging as pylog
+
+    class _Swallowed(pylog.Handler):
+        def emit(self, record):
+            rec = _CURRENT[0]
+            if rec is None or not record.exc_info:
+                return
+            et = record.exc_info[0]
+            try:
+                rec.emit('SWALLOWED', logger=record.name,
+                         exc=et.__name__ if et else None,
+                         msg=str(record.getMessage())[:200])
+            except Exception:
+                pass
+
+    h = _Swallowed(level=pylog.WARNING)
+    pylog.getLogger('mistral').addHandler(h)
+
     # attribute writes
     def listen_attr(cls, col):
         def on_set(target, value, oldvalue, initiator):
